@@ -2,9 +2,14 @@ package c10
 
 import (
 	"fmt"
+	"math/big"
 	"reflect"
 	"sort"
+	"strings"
 	"testing"
+
+	"github.com/cronokirby/saferith"
+	"github.com/taurusgroup/multi-party-sig/verifharness/fix"
 
 	"github.com/taurusgroup/multi-party-sig/pkg/hash"
 	"github.com/taurusgroup/multi-party-sig/pkg/party"
@@ -123,15 +128,68 @@ func run(c Case) *pbt.Fail {
 			return reject(c.Perturb+":"+l.path, func() bool { return in.verify(ctx("s1", "prover", false), mut.Interface()) })
 		}
 		lastField = "no-differing-field"
+	case "forged-range":
+		// The Pedersen equation s^za t^zb = C * S^e holds for EVERY challenge when the prover sends S = 1 and
+		// C = s^za t^zb (computed from the verifier's public parameters, no trapdoor needed). A proof forged like that
+		// with a response far outside the proven range (above the Paillier plaintext bound N/2) reaches whatever the
+		// verifier does after the Pedersen check. It must be REJECTED: a verifier that panics on it (e.g. by handing
+		// the response to paillier.EncWithNonce before the range check) does not reject.
+		tuples := forgeTuples[c.System]
+		if len(tuples) == 0 {
+			return nil
+		}
+		tu := tuples[c.Pick%len(tuples)]
+		ped := fix.PaillierKey(c.W.KB).Ped
+		mut := cloneProof(reflect.ValueOf(proof))
+		field := func(name string) reflect.Value {
+			for _, l := range proofLeaves(proof) {
+				if l.path == name || strings.HasSuffix(l.path, "."+name) {
+					return l.get(mut)
+				}
+			}
+			panic("forged-range: no field " + name + " in " + c.System)
+		}
+		huge := new(big.Int).Lsh(big.NewInt(1), 2048+uint(c.Pick%3)*64)
+		huge.Add(huge, big.NewInt(int64(c.W.Seed%1000)))
+		if c.Pick%2 == 1 {
+			huge.Neg(huge)
+		}
+		za := new(saferith.Int).SetBig(huge, huge.BitLen())
+		zb := field(tu[3]).Interface().(*saferith.Int)
+		field(tu[0]).Set(reflect.ValueOf(new(saferith.Nat).SetUint64(1)))
+		field(tu[2]).Set(reflect.ValueOf(za))
+		field(tu[1]).Set(reflect.ValueOf(ped.Commit(za, zb)))
+		lastField = tu[2]
+		ok := false
+		panicked, what := ev.Guard(func() { ok = in.verify(ctx("s1", "prover", false), mut.Interface()) })
+		if panicked {
+			return pbt.Failf("panic:out-of-range-response:"+c.System+":"+tu[2], fmt.Sprintf("the verifier panics on a forged proof whose Pedersen equation holds (S = 1) and whose response %s is far out of range: %v", tu[2], what))
+		}
+		if ok {
+			return pbt.Failf("unsound:"+c.System+":forged-range:"+tu[2], "a forged proof with an out-of-range response verifies ("+wc+")")
+		}
 	}
 	return nil
+}
+
+// forgeTuples: per proof system with range-checked responses, the (S-like commitment, C-like commitment, response a,
+// response b) field names of each Pedersen check Aux.Verify(a, b, e, C, S). dec and mul have no proven range for their
+// responses and are not listed (DESIGN 10.6).
+var forgeTuples = map[string][][4]string{
+	"enc":     {{"S", "C", "Z1", "Z3"}},
+	"encelg":  {{"S", "T", "Z1", "Z3"}},
+	"logstar": {{"S", "D", "Z1", "Z3"}},
+	"affg":    {{"S", "E", "Z1", "Z3"}, {"T", "F", "Z2", "Z4"}},
+	"affp":    {{"S", "E", "Z1", "Z3"}, {"T", "F", "Z2", "Z4"}},
+	"mulstar": {{"S", "E", "Z1", "Z2"}},
+	"fac":     {{"P", "A", "Z1", "W1"}, {"Q", "B", "Z2", "W2"}},
 }
 
 var prop = pbt.Define(pbt.Prop[Case]{Kind: "zk", Run: run, Class: func(c Case) (string, bool) {
 	return fmt.Sprintf("%s|x=%s|y=%s|%s|%s", c.System, c.W.X, c.W.Y, c.Perturb, lastField), c.Perturb != "none" || (c.W.X != "rand" && c.W.X != "key")
 }})
 
-var perturbs = []string{"none", "public", "public", "context-ssid", "context-party", "context-extra", "proof-same", "proof-same", "proof-other"}
+var perturbs = []string{"none", "public", "public", "context-ssid", "context-party", "context-extra", "proof-same", "proof-same", "proof-other", "forged-range"}
 
 func gen(t *rapid.T, names []string) Case {
 	sys := sysByName(rapid.SampledFrom(names).Draw(t, "system"))
@@ -150,6 +208,9 @@ func gen(t *rapid.T, names []string) Case {
 		// proof is valid under every challenge by arithmetic necessity; only completeness is meaningful there
 		c.Perturb = "none"
 	}
+	if c.Perturb == "forged-range" && len(forgeTuples[sys.name]) == 0 {
+		c.Perturb = "proof-other"
+	}
 	c.Pick = rapid.IntRange(0, 63).Draw(t, "pick")
 	return c
 }
@@ -163,4 +224,51 @@ func TestCheap(t *testing.T) {
 
 func TestCostly(t *testing.T) {
 	rapid.Check(t, func(rt *rapid.T) { prop.One(rt, gen(rt, costly)) })
+}
+
+// TestFieldSweep visits EVERY proof field and EVERY public input of every system once (substitution by the same field of
+// a proof for another statement / replacement of the public input), instead of leaving the choice of the field to
+// the random search: a single unbound response is a one-in-(systems x kinds x fields) event there.
+func TestFieldSweep(t *testing.T) {
+	rec := ev.Get()
+	i := 0
+	for _, name := range append(append([]string{}, cheap...), costly...) {
+		sys := sysByName(name)
+		w := Wit{X: sys.xs[len(sys.xs)-1], Y: sys.ys[len(sys.ys)-1], Seed: 77, KA: 1, KB: 7}
+		for outOfRange(w.X) {
+			w.X = "rand"
+		}
+		for outOfRange(w.Y) {
+			w.Y = "rand"
+		}
+		if name == "fac" || name == "mod" || name == "prm" {
+			w.X = "key"
+		}
+		nLeaves, nAlts := -1, -1
+		count := func() {
+			if nLeaves >= 0 {
+				return
+			}
+			mux := tape.Install(w.Seed)
+			in := sys.build(w)
+			nLeaves, nAlts = len(proofLeaves(in.prove(ctx("s1", "prover", false)))), len(in.alts)
+			mux.Uninstall()
+		}
+		for k := 0; k < 64; k++ {
+			i++
+			if !rec.Mine(i) {
+				continue
+			}
+			count()
+			if k < nLeaves {
+				prop.One(t, Case{System: name, W: w, Perturb: "proof-other", Pick: k})
+			}
+			if k < nAlts {
+				prop.One(t, Case{System: name, W: w, Perturb: "public", Pick: k})
+			}
+			if k < 2*len(forgeTuples[name]) {
+				prop.One(t, Case{System: name, W: w, Perturb: "forged-range", Pick: k})
+			}
+		}
+	}
 }
